@@ -41,7 +41,7 @@ def run_driver(lines):
             if not ln.strip():
                 continue
             r = sx.parse(ln)
-            out[r[0]] = {str(e[0]): e[1:] for e in r[1:]}
+            out[str(r[0])] = {str(e[0]): e[1:] for e in r[1:]}
         return out
     finally:
         try:
@@ -72,25 +72,29 @@ def _worker(job):
             args, impl = comp.run(c)
         except Exception as e:  # noqa: BLE001  harness trouble is reported, never hidden
             import traceback
-            runs.append((i, c, None, "harness-error: " + traceback.format_exc()[-800:]))
+            runs.append((i, c, None, "harness-error: " + traceback.format_exc()[-800:], 0))
             continue
-        lines.append("(" + comp_name + " " + str(i) + " " + " ".join(sx.enc(a) for a in args) + ")")
-        runs.append((i, c, impl, None))
+        multi = args["multi"] if isinstance(args, dict) else [args]
+        for k, a in enumerate(multi):
+            lines.append("(" + getattr(comp, "driver", comp_name) + f" c{i}_{k} " + " ".join(sx.enc(x) for x in a) + ")")
+        runs.append((i, c, impl, None, len(multi)))
     results = run_driver(lines) if lines else {}
     out = []
-    for i, c, impl, err in runs:
+    for i, c, impl, err, nres in runs:
         if err is not None:
             out.append({"idx": i, "case": c, "error": err})
             continue
-        res = results.get(i)
-        if res is None:
+        rl = [results.get(f"c{i}_{k}") for k in range(nres)]
+        if any(r is None for r in rl):
             out.append({"idx": i, "case": c, "error": "no driver result"})
             continue
-        if "error" in res:
-            out.append({"idx": i, "case": c, "error": "driver: " + str(res["error"])})
+        bad = [r for r in rl if "error" in r]
+        if bad:
+            out.append({"idx": i, "case": c, "error": "driver: " + str(bad[0]["error"])})
             continue
-        rep = comp.judge(c, impl, res)
+        rep = comp.judge(c, impl, rl[0] if nres == 1 else rl)
         rep["idx"] = i
+        rep.setdefault("case", c)
         out.append(rep)
     return out
 
